@@ -143,10 +143,10 @@ def run_case(rng, idx, tier, lane, ctx):
         except StepCap:
             return {"status": "inconclusive", "reason": "monitor-step-cap", "counters": counters, "sample": sample}
         except Exception as e:
-            from verifkit.props import c04
-            w = {"what": "solve_stochast raised on a model inside the quantifier", "config": {"exact": exact, "pre_tau": m.pre_tau},
-                 "error": short_exc(e), "tb": tb_tail(e)}
-            return {"status": "violated", "witnesses": [w], "sample": sample, "counters": counters, "classes": cls}
+            # no output to compare: "the simulation returns" is C04's clause, not this property's
+            counters["simulation_raised"] = counters.get("simulation_raised", 0) + 1
+            return {"status": "inconclusive", "reason": "simulation-raised (no output to compare; C04 decides 'returns'): " + type(e).__name__,
+                    "sample": sample, "counters": counters, "classes": cls}
         counters["fresh_generators"] += sp.fresh
         if sp.fresh:
             bad("a serial simulation created %d fresh random generators instead of using the global one" % sp.fresh)
@@ -271,7 +271,3 @@ def run_case(rng, idx, tier, lane, ctx):
         res["witnesses"] = wit[:6]
     return res
 
-
-def classify(w):
-    from verifkit.props import c04
-    return c04.classify(w)
